@@ -26,6 +26,7 @@ var (
 	flagMode = flag.String("mode", "c01", "scenario family")
 	flagOut  = flag.String("out", "/tmp/txn.ndjson", "trace file")
 	flagSeed = flag.Int64("seed", 1, "seed")
+	flagFx   = flag.String("fixtures", "", "fixture file (one JSON command list per line) for c05 / c14")
 	flagN    = flag.Int("n", 50, "number of scenarios (random families) / sampling divisor (enumerated families)")
 )
 
@@ -312,6 +313,14 @@ func main() {
 		runC06(w, rng, *flagN)
 	case "c04":
 		runC04(w, rng, *flagN)
+	case "c05":
+		flagFixtures = *flagFx
+		runC05(w, rng, *flagN)
+	case "c14":
+		flagFixtures = *flagFx
+		runC14(w, rng, *flagN)
+	case "c14rt":
+		runC14rt(w, rng, *flagN)
 	default:
 		fmt.Fprintln(os.Stderr, "unknown mode")
 		os.Exit(2)
